@@ -5,7 +5,7 @@
 #include <vector>
 #include <cstdint>
 // xer: XER text of the value (encoded by the library in every syntax); raw: bytes written by hand for ONE syntax (raw_syntax is an
-// int so that this header does not depend on core.h: 1 = BER), for inputs the library's encoders never produce
+// int so that this header does not depend on core.h: 1 = BER, 4 = XER), for inputs the library's encoders never produce
 struct Bulk { const char *name; const char *type; const char *decode_as; std::string (*xer)(size_t k); std::vector<uint8_t> (*raw)(size_t k); int raw_syntax; long heap_a = 0; /* bytes of heap per input byte allowed for this template; 0 = the default of the bulk runs */ };
 static inline std::vector<uint8_t> bulk_segments(uint8_t outer, uint8_t inner, size_t k, bool empty) {     // constructed string of k tiny primitive segments
     std::vector<uint8_t> o; o.reserve(3 * k + 8); o.push_back(outer); o.push_back(0x80);
@@ -13,6 +13,13 @@ static inline std::vector<uint8_t> bulk_segments(uint8_t outer, uint8_t inner, s
     o.push_back(0); o.push_back(0); return o;
 }
 static inline std::string hexrun(size_t k) { return std::string(2 * k, 'A'); }
+// XER text of a Sim1.Prims value with chosen texts for the INTEGER, REAL and OBJECT IDENTIFIER members and a filler between two members
+static inline std::vector<uint8_t> prims_xer(const std::string &i, const std::string &r, const std::string &oid, const std::string &between) {
+    std::string x = "<Prims><b><true/></b><i>" + i + "</i><i8>1</i8><ineg>-1</ineg><i32>0</i32><iu32>0</iu32><isemi>5</isemi><iext>16</iext><e><blue/></e>" + between + "<r>" + r
+                    + "</r><n/><bs>1</bs><bsf>111111111111</bsf><bsr>10101</bsr><os>00</os><osf>00000000</osf><osr>01</osr><oid>" + oid + "</oid><roid>0.0</roid></Prims>";
+    return std::vector<uint8_t>(x.begin(), x.end());
+}
+static inline std::string oid_run(size_t k) { std::string o = "1.2"; for(size_t q = 0; q < k / 2; q++) o += ".3"; return o; }
 static const Bulk BULKS[] = {
     {"bigstr", "BigStr", "BigStr", [](size_t k) { return "<BigStr>" + hexrun(k) + "</BigStr>"; }, nullptr, 0},
     {"bigbits", "BigBits", "BigBits", [](size_t k) { return "<BigBits>" + std::string(8 * k, '1') + "</BigBits>"; }, nullptr, 0},
@@ -31,6 +38,13 @@ static const Bulk BULKS[] = {
     {"bigstr.ber-tiny-segments", "BigStr", "BigStr", nullptr, [](size_t k) { return bulk_segments(0x24, 0x04, k / 3, false); }, 1, 8},
     {"bigbits.ber-tiny-segments", "BigBits", "BigBits", nullptr, [](size_t k) { return bulk_segments(0x23, 0x03, k / 3, false); }, 1, 8},
     // Sim3: payload inside an information-object-class open type (a decoder that is not restartable re-reads it on every delivery)
+    // XER only (raw_syntax 4), text the library's encoder never writes: long bodies of primitive types, long runs between members
+    {"prims.real-trailing-blanks", "Prims", "Prims", nullptr, [](size_t k) { return prims_xer("7", "0.5" + std::string(k, ' '), "1.2.3", ""); }, 4},
+    {"prims.real-long-digits", "Prims", "Prims", nullptr, [](size_t k) { return prims_xer("7", "0." + std::string(k, '3'), "1.2.3", ""); }, 4},
+    {"prims.integer-leading-zeros", "Prims", "Prims", nullptr, [](size_t k) { return prims_xer(std::string(k, '0') + "7", "0.5", "1.2.3", ""); }, 4},
+    {"prims.oid-many-arcs", "Prims", "Prims", nullptr, [](size_t k) { return prims_xer("7", "0.5", oid_run(k), ""); }, 4},
+    {"prims.blanks-between", "Prims", "Prims", nullptr, [](size_t k) { return prims_xer("7", "0.5", "1.2.3", std::string(k, ' ')); }, 4},
+    {"prims.comment-between", "Prims", "Prims", nullptr, [](size_t k) { return prims_xer("7", "0.5", "1.2.3", "<!--" + std::string(k, 'x') + "-->"); }, 4},
     {"frame.str", "Frame", "Frame", [](size_t k) { return "<Frame><ident>2</ident><value><Str>" + std::string(k, 'x') + "</Str></value></Frame>"; }, nullptr, 0},
 };
 static const int NBULK = sizeof(BULKS) / sizeof(BULKS[0]);
